@@ -1143,6 +1143,9 @@ class Executor:
                             heap.add(v.ref)
                             if f.attr == "add_soft":
                                 soft.add(v.ref)
+                        elif isinstance(v, VRef) and ex.st.obj(v.ref)["kind"] == "obj" and (ex.st.obj(v.ref)["cls"], f.attr) in getattr(ex.lib, "STREAM_MODS", {}):
+                            for fld in ex.lib.STREAM_MODS[(ex.st.obj(v.ref)["cls"], f.attr)]:
+                                heap.add(("field", v.ref, fld))  # a library model that updates fields of its receiver
                         elif isinstance(v, VRef) and ex.st.obj(v.ref)["kind"] == "obj":
                             ct = resolve_method(ex.st.obj(v.ref)["cls"], f.attr)
                             if ct is not None:
@@ -1611,6 +1614,10 @@ class Executor:
                 return r if isinstance(op, ast.In) else z3.Not(r)
             if isinstance(b, VDict) and hasattr(a, "t") and a.t.sort() == b.kt.sort():
                 r = self.mem_keys(b.keys, a.t)
+                return r if isinstance(op, ast.In) else z3.Not(r)
+            if isinstance(b, VTuple) and isinstance(a, (VInt, VStr)) and all(type(x) is type(a) for x in b.items):
+                # x in (c1, .., cn) for scalars of one type: a disjunction of equalities
+                r = z3.Or([a.t == x.t for x in b.items]) if b.items else z3.BoolVal(False)
                 return r if isinstance(op, ast.In) else z3.Not(r)
         raise Unsupported(f"comparison {op.__class__.__name__} on {a.ty},{b.ty}")
 
